@@ -435,3 +435,52 @@ class DictSetDefault(Contract):
     if d.setdefault('k', 5) != ref.setdefault('k', 5) or dict(d.sym_items()) != ref:
       bad.append(f'absent key: contents {dict(d.sym_items())!r}, dict gives {ref!r}')
     return dict(outcome='reproduced' if bad else 'not-reproduced', detail='; '.join(bad) or 'as dict.setdefault')
+
+
+# ---------------------------------------------------------------------------
+# Deleting an extended slice (step != 1) is a sequence of single deletions; each
+# one shifts everything to its right, so the indices must be visited from the
+# highest to the lowest, once each, and be exactly the members of
+# range(start, stop, step) -- for a negative step as well (`del x[::-2]`), where
+# the range itself is already descending.  Shape-bounded: concrete triples as
+# `_parse_slice` hands them out (its contract is `ParseSlice`).
+
+@register
+class DelItemExtendedSlice(_ListContract):
+  bounded = True       # stated bound: the concrete (start, stop, step) triples of `variants`
+  target = f'{SL}:List.__delitem__'
+  name = 'List.__delitem__/extended-slice'
+  trace_reads_only = None
+  raises = {Exception: ()}
+  variants = ((0, 5, 2), (1, 6, 3), (0, 0, 2), (4, -1, -1), (4, -1, -2), (5, 0, -2), (6, 1, -3), (3, 3, -1), (2, 1, 5))
+
+  def inputs(self, b):
+    return dict(self=self.lst(b), index=slice(None, None, None)), {}
+
+  def setup_policy(self, policy):
+    _list_policy(policy)
+    me = self
+    policy.contracts[f'{SL}:List._parse_slice'] = lambda interp, frame, args, kwargs: tuple(me.variant)
+
+    def single(interp, frame, args, kwargs):
+      idx = interp.resolve(args[1] if len(args) > 1 else kwargs['index'])
+      interp.path.event('single-delete', 'index', idx)
+      return None
+    policy.contracts[f'{SL}:List.__delitem__'] = single
+
+  def trace_single_deletions_run_from_the_highest_index_down(self, events, outcome, interp, env):
+    if outcome[0] != 'return':
+      return False
+    got = [e.data for e in events if e.kind == 'single-delete']
+    return got == sorted(set(range(*self.variant)), reverse=True)
+
+  def replay(self, obligation, m):
+    bad = []
+    for n in range(0, 7):
+      for sl in (slice(None, None, -2), slice(None, None, -1), slice(4, 0, -1), slice(None, None, 2), slice(5, None, -3), slice(1, None, 3)):
+        l, ref = pg.List(list(range(n))), list(range(n))
+        from pyvc.bounded import outcome
+        a, b_ = outcome(l.__delitem__, sl), outcome(ref.__delitem__, sl)
+        if a[0] != b_[0] or list(l) != ref:
+          bad.append(f'del x[{sl.start}:{sl.stop}:{sl.step}] on range({n}): {a} {list(l)!r}, a plain list: {b_} {ref!r}')
+    return dict(outcome='reproduced' if bad else 'not-reproduced', detail='; '.join(bad[:4]) or 'as a plain list')
